@@ -67,8 +67,50 @@ def _chunk(items):
     return bad
 
 
+TEXT_NODE_CASES = [('div>{x}', [(0, 'div')], 0), ('div>{x}+p', [(0, 'div'), (1, 'p')], 0), ('div>p+{x}', [(0, 'div'), (1, 'p')], 1),
+                   ('ul>li>{t}+a', [(0, 'ul'), (1, 'li'), (2, 'a(href="")')], 1), ('x.c>{t}', [(0, 'x.c')], 0)]
+
+
+def _text_node_children():
+    """text-only nodes written as children (known finding F46): every element still has a line of its own that starts with its name
+    (the text may follow it after a blank, or stand on a line of its own one level deeper)"""
+    import emmet
+    bad = []
+    n = 0
+    for abbr, elems, _ in TEXT_NODE_CASES:
+        for syn in ('pug', 'haml', 'slim'):
+            n += 1
+            out = emmet.expand(abbr, {'syntax': syn})
+            lines = []
+            for line in out.split('\n'):
+                d = len(line) - len(line.lstrip('\t'))
+                lines.append((d, line.strip()))
+            want = [(d, ('%' if syn == 'haml' else '') + (h.replace('(href="")', ' href=""') if syn == 'slim' else h)) for d, h in elems]
+            k = 0
+            ok = True
+            for d, h in want:
+                while k < len(lines) and not (lines[k][0] == d and (lines[k][1] == h or lines[k][1].startswith(h + ' '))):
+                    # only text lines may stand between element lines
+                    if lines[k][1] and not (lines[k][1].startswith('|') or lines[k][1] in ('x', 't')):
+                        ok = False
+                    k += 1
+                if k == len(lines):
+                    ok = False
+                    break
+                k += 1
+            if not ok:
+                bad.append(('indent-lines (text node child)', {'abbr': abbr, 'syntax': syn, 'expected_element_lines': want, 'actual': lines, 'output': out,
+                                                               'flags': {'text_node_child': True}}))
+    return n, bad
+
+
 def run(out):
     quick = out.tier == 'quick'
+    ntn, badtn = _text_node_children()
+    out.evaluations += ntn
+    out.parts.append({'instance': 'text-node-children', 'cases': ntn})
+    for what, case in badtn:
+        out.violation(what, case)
     out.rule = ('one case per (abbreviation generated by IndentFormat.tla, syntax in pug/haml/slim, indent string); non-trivial = at least two '
                 'elements; distinct by (abbreviation, syntax)')
     out.assumptions = ['lines are compared after removing trailing blanks (an empty tabstop leaves one)', 'ids and class names without blanks']
